@@ -133,10 +133,13 @@ func FromJSON(b []byte) (*Result, error) {
 		return nil, fmt.Errorf("parse: expected one modifier, received %d: %s", len(msg), ks)
 	}
 
-	parseMu.RLock()
-	defer parseMu.RUnlock()
 	for k, m := range msg {
+		// The lock covers the lookup only. The parse functions of groups and filters call
+		// FromJSON for their children: taking the read lock again inside it deadlocks as soon
+		// as a Register asks for the write lock in between, and every later FromJSON with it.
+		parseMu.RLock()
 		parseFunc, ok := parseFuncs[k]
+		parseMu.RUnlock()
 		if !ok {
 			return nil, ErrUnknownModifier{name: k}
 		}
